@@ -1,6 +1,6 @@
 @unit cw3flex
 @shim core.rs cw_utils.rs std_more.rs cw3deps.rs cw2.rs std_adapters.rs querier.rs range.rs
-@properties C03 C05 C06 C15 C20
+@properties C03 C05 C06 C15 C20 C09
 
 @include inc/cw3_types.vsi
 @include inc/cw3_fns_relaxed.vsi
